@@ -123,3 +123,42 @@ def check_handler(ix, rep, cls, f, slot, rule='R-UNITFLOW'):
     if not problems:
         rep.ok(rule, f.module.rel, f.qual, slot, 'bounds are normalised or carried with their units' if (raw_names or norm_names or nsites) else 'handler uses no bound', f.node.lineno)
     return nsites
+
+
+def check_raw_bounds(ix, rep, prefixes=('rtamt/semantics/', 'rtamt/explanation/', 'rtamt/pastifier/'), rule='R-UNITFLOW', label='consumer'):
+    """the bounds of a timed node are numbers *in a unit* (node.begin_unit / end_unit, else the other bound's, else the default unit), and the
+    evaluation counts them in sampling periods.  A function that receives a node and reads node.begin / node.end without reading the units in
+    the same function uses the written number as if it were a count of samples: right only for period 1 in the default unit.  Reads are
+    legitimate inside a normaliser (a function that reads the bound *and* its unit and the unit table; those are decided by R-DIM)."""
+    n = 0
+    for mod in sorted(ix.modules.values(), key=lambda m: m.rel):
+        if not any(mod.rel.startswith(p) for p in prefixes) or ix.unimportable(mod):
+            continue
+        for fn in ast.walk(mod.tree):
+            if not isinstance(fn, ast.FunctionDef):
+                continue
+            params = [a.arg for a in fn.args.args if a.arg not in ('self', 'cls')]
+            reads = {}
+            units = set()
+            for x in ast.walk(fn):
+                if isinstance(x, ast.Attribute) and isinstance(x.value, ast.Name) and x.value.id in params and isinstance(x.ctx, ast.Load):
+                    if x.attr in ('begin', 'end'):
+                        reads.setdefault(x.value.id, []).append(x)
+                    if x.attr in ('begin_unit', 'end_unit'):
+                        units.add(x.value.id)
+            for p, xs in sorted(reads.items()):
+                n += 1
+                rep.unit(mod.rel)
+                owner = None
+                for c in ast.walk(mod.tree):
+                    if isinstance(c, ast.ClassDef) and any(s is fn for s in c.body):
+                        owner = c.name
+                sym = '%s.%s' % (owner, fn.name) if owner else fn.name
+                slot = '%s:%s.begin/end' % (label, p)
+                if p in units:
+                    rep.ok(rule, mod.rel, sym, slot, 'read together with the units (normaliser)', xs[0].lineno)
+                else:
+                    rep.fail(rule, mod.rel, sym, slot, '`%s` is used without its unit and without the sampling period (%d reads, e.g. `%s`): the written number is taken for a number of '
+                             'samples, which it is only for a period of 1 in the default unit -- with a period of 500 ms, `[0,1]` spans two more samples than the one this code looks at'
+                             % (ast.unparse(xs[0]), len(xs), ast.unparse(xs[0])), xs[0].lineno)
+    return n
